@@ -105,6 +105,7 @@ def main():
             i = ('EXC', e)
         if i is None:
             stats['real-rejects'] += 1
+            bad.append(('REJECT', inst.key(), bs.hex()))
             continue
         if isinstance(i, tuple):
             stats['real-dis-exception'] += 1
